@@ -591,6 +591,27 @@ def check_C03(ctx):
                     root = gen.mkcmd("app", decls=kd, spec=sp, policy=0)
                     run_cases.append({"op": "run", "env": env, "version": None, "root": root, "argv": argv})
                     n_many += 1
+    # (4) repeated choices over several options x many occurrences: the number of orders in which the occurrences can be
+    # taken explodes, the number of distinct configurations does not; the library must answer within the deadline whether or
+    # not the model (a plain backtracking search) does
+    cd = [gen.mkopt("bool", ch, **{"def": ["false"]}) for ch in "abc"] + [gen.mkopt("strings", "o"), gen.mkarg("strings", "X")]
+    many = []
+    for sp in ("(-a | -b | -c)...", "[-a | -b | -c | -o]... [X]", "(-a | -b)... (-c | -a)... [X]", "([-a] [-b] [-c])... X", "[-a | -b]... [-c | -o]... X..."):
+        for n in (14, 20, 30, 45):
+            for tail in (["-z"], [], ["x"], ["x", "-z"], ["--", "-a"]):
+                line = []
+                for k_ in range(n):
+                    line += rng.choice([["-a"], ["-b"], ["-c"], ["-ab"], ["-o", "v"], ["-cab"]]) if "-o" in sp else rng.choice([["-a"], ["-b"], ["-c"], ["-ab"], ["-cab"]])
+                many.append({"op": "run", "env": {}, "version": None, "root": gen.mkcmd("app", decls=copy.deepcopy(cd), spec=sp, policy=0), "argv": line + tail})
+    number(many, start=10 ** 6)
+    mres = core.run_impl(many, timeout_ms=10000)
+    for c in many:
+        ctx.count(c)
+        oc = core.obs_impl(mres[c["id"]])["outcome"]
+        if oc[0] in ("timeout", "died", "stackoverflow", "crash"):
+            ctx.violation("liveness", "spec %r, command line of %d tokens %r...: %s" %
+                          (c["root"]["spec"], len(c["argv"]), c["argv"][:12],
+                           "no answer within 10 s" if oc[0] == "timeout" else "ends with %r" % (oc,)), case=c, impl=list(oc))
     res = correspond(ctx, run_cases, ["outcome"], "specs x command lines x env subsets", timeout_ms=10000)
     bad = 0
     for c in run_cases:
@@ -614,7 +635,7 @@ def check_C03(ctx):
             ctx.violation("model-fuel", "the model runs out of fuel on spec %r argv %r (its termination theorem "
                           "would be false here)" % (c["root"]["spec"], c["argv"]), case=c)
     ctx.stream("specs x command lines x env subsets", 0, arbitrary_strings=n_strings, hostile_specs=len(hostile),
-               many_env_backed_options=n_many, malformed_clusters=n_mal)
+               many_env_backed_options=n_many, malformed_clusters=n_mal, repeated_choices_many_occurrences=len(many))
     ctx.sample({"spec": "[[X]...]...", "argv": [], "env": {}})
     ctx.sample({"spec": "[-e...] X", "argv": ["x"], "env": {"VE_E": "1"}})
     return ("every concatenation of up to %d items of a 25-item spec alphabet and random byte strings as specs; "
